@@ -41,6 +41,10 @@ Inductive rcase :=
             (witness : option Z)            (* time of the last event before subscribing, if any *)
             (results : list (option fmsg))  (* value returned by each operation of [after] (successful Sets) *)
             (stream : list ovchange) (final_get : option fmsg)
+(* PullID: the collection stream restricted to one id, ending (channel closed) at its REMOVE *)
+| CaseCPullID (writable : option (list fld)) (idf : option idf) (equiv : option eqv)
+              (before : list fop) (ro : fro) (id : string) (after : list fop)
+              (stream : list ovchange) (closed : bool)
 (* C08 without a model: what a subscriber received (lossy delivery, or through a trait server) and
    the listing taken with the same predicate once delivery had settled *)
 | CaseFold (what : string) (stream : list ochange) (final_list : list (string * fmsg)).
@@ -262,6 +266,14 @@ Definition agrees (c : rcase) : bool :=
   | CaseVPull w initial e before ro after codes witness results stream final =>
       let '(vs, s2) := model_vstream w initial e before ro after in
       list_match vc_matches vs stream && ofm_eqb (v_get fr_filter s2 (r_mask ro)) final
+  | CaseCPullID w i e before ro id after stream closed =>
+      (* PullID opens its inner Pull from a goroutine it starts, so the subscription point lies at
+         some moment after the call: between any two of the writes that follow it *)
+      existsb (fun k =>
+                 let '(cs, _) := model_cstream w i e (before ++ firstn k after) ro (skipn k after) in
+                 let '(vs, closed') := pull_id_from (apply_id (idfun_of i) id) cs in
+                 list_match vc_matches vs stream && Bool.eqb closed closed')
+              (seq 0 (S (List.length after)))
   | CaseFold _ _ _ => true      (* not modelled here (lossy merging is C09's model); judged by the oracle only *)
   end.
 
@@ -306,6 +318,10 @@ Definition C04_ok (c : rcase) : bool :=
        | None => if r_updates_only ro then true else same_map (fold_view (map to_cc stream)) final
        | Some _ => true
        end)
+  | CaseCPullID w i e before ro id after stream closed =>
+      (* seeds (at most one, for this id) first; nothing is flagged seed after an update *)
+      (match stream with o :: r => forallb (fun x => negb (ov_seed x)) r | [] => true end) &&
+      (if r_updates_only ro then forallb (fun x => negb (ov_seed x)) stream else true)
   | CaseVPull w initial e before ro after codes witness results stream final =>
       let seeds := filter ov_seed stream in
       let updates := filter (fun o => negb (ov_seed o)) stream in
